@@ -4,8 +4,9 @@ from vlib import core, cluster, netrunner
 from vlib.runner import Failure
 
 PID = "C07"
-LEAN_MODULE = "NunVerif.Props.C07"
-THEOREMS = ["Nun.C07_election_terminates", "Nun.resume_decreases", "Nun.C07_lone_member_wins_at_once", "Nun.C07_older_candidate_wins_the_comparison"]
+LEAN_MODULE = "NunVerif.Props.C07Wire"
+THEOREMS = ["Nun.C07_election_terminates", "Nun.resume_decreases", "Nun.C07_lone_member_wins_at_once", "Nun.C07_older_candidate_wins_the_comparison",
+            "Nun.parse_candidateLine", "Nun.replicateRequestCore_election", "Nun.parse_setPrimaryLine", "Nun.parse_setSecoundaryLine", "Nun.parseU128_ofNat"]
 
 def roles(net, live):
     for i in live: net.op(i, "DUMP")
